@@ -147,6 +147,8 @@ def run(prog, rep, tier, cfg):
             for pc in [x for x in cl.calls if callee_is('State::purge_approvals')(x)]:
                 rep.need('K8', hname + ':purge-propagated', result_fate(cl, pc) in ('try', 'returned'), 'purge_approvals error must be propagated', pc.where)
                 X.arg_has('K10', hname + ':purge-target', pc, 2, ['F:' + field], 'approvals purged are those of the removed signer', narrow=False)
+                X.arg_has('K10', hname + ':purge-target-resolved', pc, 2, ['C:resolve_to_actor_id', 'C:Address::new_id'], 'approvals are stored under ID addresses: the purged address is the resolved one',
+                          forbid=['F:' + field])
                 X.followed_by('K7', hname + ':purge-on-success', cl, [b for b in [0]], [pc.bb], 'every success path purges')
     PA = X.fn('State::purge_approvals', CR)
     X.followed_by('K7', 'purge_approvals:persisted', PA, [0], X.write_blocks(PA, 'State', 'pending_txs'), 'purge stores the new pending root on every success path')
@@ -159,6 +161,13 @@ def run(prog, rep, tier, cfg):
         X.guard('K6b', 'add_signer:max', cl, pushes, m_rel('ge', ['F:State.signers'], ['K:SIGNERS_MAX'], False), 'signers.len() >= SIGNERS_MAX => Err')
         X.guard('K6b', 'add_signer:duplicate', cl, pushes, m_pred('State::is_signer', ['F:AddSignerParams.signer'], False), 'is_signer(new) => Err')
     X.const_is('K11', 'SIGNERS_MAX', 256, CR)
+    for hname in ('add_signer', 'remove_signer', 'swap_signer'):
+        H = X.fn('Actor::' + hname, CR)
+        for cl in prog.closures_of(H.id):
+            for c in cl.calls:
+                if (c.callee or '').endswith('Vec::<T, A>::push') or callee_is('State::is_signer')(c):
+                    X.arg_has('K10', '%s:%s-uses-resolved-id#%d' % (hname, (c.callee or '').split('::')[-1], c.bb), c, 1, ['C:resolve_to_actor_id'],
+                              'signers are stored and compared as resolved ID addresses')
     RS = X.fn('Actor::remove_signer', CR)
     for cl in prog.closures_of(RS.id, recursive=False):
         ret = [x.bb for x in cl.calls if (x.callee or '').endswith('::retain')]
